@@ -154,6 +154,8 @@ def _settings():
                      "the code and committed, and is never regenerated by a check",
                      "the hourly tree has no developer lock in the code or in the statement: for it the approved constants, acceptance of valid and "
                      "rejection of invalid values are checked",
+                     "stored-settings cases compare the document with the settings taken right after construction (before the fit); an hourly train_features left "
+                     "unset is resolved from the baseline's columns by the fit and is not compared, an explicitly given list is",
                      "BillingModel is built on the legacy constants (BillingSettings is only used by BillingWeightedModel); its documents force "
                      "developer_mode, which is ignored when comparing stored settings"],
         invariants_note="MC config checks that every developer-only field has an alternative value (the lock is exercised for every such field), every "
@@ -173,9 +175,9 @@ def _suff():
         prop="C10", module="Suff", trace_module="SuffTrace", driver="drivers.suff",
         cfg={"quick": "Suff_quick.cfg", "thorough": "Suff_thorough.cfg"}, sample={"quick": 1400, "thorough": 12000}, variants=variants,
         spec_files=["Suff.tla", "SuffDefs.tla", "SuffTrace.tla", "Cal.tla"],
-        always=lambda b: ('span |-> 328' in b and 'cls |-> "billing"' in b) or ('lead |-> 6' in b and 'trail |-> 5' in b),   # known-finding cases are never sampled away
+        always=lambda b: ('span |-> 328' in b and 'cls |-> "billing"' in b) or ('lead |-> 6' in b and 'trail |-> 5' in b) or 'mcase |-> TRUE' in b,   # known-finding cases are never sampled away
         rule="TLC enumerates class x role x fuel x negatives x start date x span {250..420 incl. 328/329/365/366} x missing-usage and "
-             "missing-temperature day counts at each 90% threshold -1/0/+1 x placements (block, early block, spread); a seeded sample is realised as "
+             "missing-temperature day counts at each 90% threshold -1/0/+1 x placements (block, early block, spread), plus the monthly-rule cases (1..4 consecutive days of one 30-day / 31-day / February / partial first month without temperature - hourly baselines: or usage; always replayed); a seeded sample is realised as "
              "real frames / series pairs (daily, billing: one row per day; hourly: 24 rows per day) in DST-free and DST zones; "
              "non-trivial = the object carries a disqualification",
         assumptions=["first and last day of the span are valid; days before / after them that are present in a frame without usage are not part of the span "
@@ -257,8 +259,9 @@ def _metrics():
 
 def _curve():
     def variants(tier, r, cin):
-        vs = ["daily:America/Chicago", "daily:Asia/Kolkata", "billing:America/Chicago"]
-        return vs if tier == "thorough" else [vs[0], r.choice(vs[1:])]
+        # ":seg" = the recorded segment limits coincide with the stored balance points (a balance point parked on its bound)
+        vs = ["daily:America/Chicago", "daily:America/Chicago:seg", "daily:Asia/Kolkata", "billing:America/Chicago", "billing:America/Chicago:seg"]
+        return vs if tier == "thorough" else [vs[0], vs[1], r.choice(vs[2:])]
 
     return runner.PureSpec(
         prop="C11", module="Curve", trace_module="CurveTrace", driver="drivers.curve",
@@ -267,7 +270,7 @@ def _curve():
         rule="TLC enumerates the seven model shapes over a grid of balance points, slopes (dyadic rationals) and smoothing fractions; each document "
              "is probed at -60..140 F including the balance points themselves, the shifted balance points and +-1/4 F around them; every document is "
              "loaded with from_dict and predicted through DailyModel and BillingModel; non-trivial = any shape but the flat one",
-        assumptions=["documents a fit can emit: balance points strictly inside the recorded temperature limits, heating balance point below the cooling one",
+        assumptions=["documents a fit can emit: balance points inside the recorded outer temperature limits - either well inside the segment limits or exactly on them (variant :seg) -, heating balance point below the cooling one",
                      "unsmoothed sides and the flat part are compared exactly (dyadic inputs); a smoothed side is bounded between its asymptote (the straight "
                      "line through the stored balance point) and the line through the shifted balance point, to 1/1000; how fast it approaches the "
                      "asymptote is not decided",
@@ -495,6 +498,42 @@ class C06Entry:
         return runner.selftest_pure(_clock())
 
 
+class C01Entry:
+    """C01 = Lifecycle (round trip: reload, re-serialise, same predictions) + the formula clause (`the stored coefficients are the
+    curve that is evaluated`) decided on constructed documents by the Curve module."""
+    OWN_CURVE = {"PredictReturns", "StraightLineWithTheFittedSlopeWhenUnsmoothed", "BaseLoadBetweenTheBalancePoints",
+                 "SmoothedCurveBetweenAsymptoteAndShiftedLine", "SmoothingFollowsTheExponentialKernel"}
+
+    def run(self, tier):
+        import json, os
+        rc1 = LifeEntry("C01").run(tier)
+        spec = _curve()
+        spec.prop = "C01"
+        rc2 = runner.run_pure(spec, tier, evidence_suffix="_curve", owned=self.OWN_CURVE)
+        base_p, part_p = os.path.join(common.EVID, "C01.json"), os.path.join(common.EVID, "C01_curve.json")
+        base, part = json.load(open(base_p)), json.load(open(part_p))
+        os.remove(part_p)
+        cov, c = base["coverage"], part["coverage"]
+        cov["formula_stage"] = {"module": c["spec_modules"], "states": c["states"], "transitions": c["transitions"], "calls": c["traces_validated_against_impl"],
+                                "distinct_nontrivial": c["distinct_nontrivial"], "rejected": c["rejected_calls"], "rule": c["rule"], "owned_clauses": sorted(self.OWN_CURVE)}
+        for k in ("states", "transitions", "traces_validated_against_impl", "evaluations", "distinct_nontrivial"):
+            cov[k] += c[k]
+        cov["samples"] += c["samples"][:2]
+        base["assumptions"] += [a for a in part["assumptions"] if a not in base["assumptions"]]
+        common.write_evidence("C01", base["tier"], cov, base["wall_s"] + part["wall_s"], base["violations"] + part["violations"], base["assumptions"])
+        return 1 if (rc1 or rc2) else 0
+
+    def replay(self, payload):
+        if payload.get("module") == "Curve":
+            spec = _curve()
+            spec.prop = "C01"
+            return runner.run_pure(spec, "quick", only_cases=[payload["case"]], owned=self.OWN_CURVE)
+        return LifeEntry("C01").replay(payload)
+
+    def selftest(self):
+        return LifeEntry("C01").selftest()
+
+
 class LifeEntry:
     def __init__(self, prop):
         self.prop = prop
@@ -515,6 +554,7 @@ class LifeEntry:
 _REG = {"C20": lambda: C20Entry(), "C07": lambda: C07Entry(), "C19": lambda: PureEntry(_agg()), "C06": lambda: C06Entry(), "C18": lambda: C18Entry(), "C14": lambda: PureEntry(_settings()), "C10": lambda: PureEntry(_suff()), "C13": lambda: PureEntry(_split()), "C17": lambda: PureEntry(_prep()), "C16": lambda: PureEntry(_metrics()), "C11": lambda: PureEntry(_curve()), "C12": lambda: C12Entry(), "C08": lambda: PureEntry(_resample("C08")), "C09": lambda: PureEntry(_resample("C09"))}
 for _p in ("C01", "C02", "C03", "C04", "C05"):
     _REG[_p] = (lambda p: (lambda: LifeEntry(p)))(_p)
+_REG["C01"] = lambda: C01Entry()
 
 
 def get(prop):
